@@ -141,7 +141,7 @@ class Sh:
 
     def run(self):
         r = self.rnd
-        nP = 4 if self.desc["tier"] == "quick" else 250
+        nP = 4 if self.desc["tier"] == "quick" else 40
         perR = 22 if self.desc["tier"] == "quick" else 120
         for _ in range(nP):
             g = ml.Gen(r, "functions", nfuncs=r.randint(2, 3))
